@@ -201,7 +201,7 @@ func TestEnumerateFaultPoints(t *testing.T) {
 func TestFaultSequences(t *testing.T) {
 	counts := map[string][2]int{}
 	refs := map[string]*inj.Ref{}
-	rec.Check(t, rec.Scale(6, 120), func(t *rapid.T) {
+	rec.Check(t, rec.Scale(6, 30), func(t *rapid.T) { // counts are per shard
 		p := rapid.SampledFrom(inj.C12Probes).Draw(t, "probe")
 		c := inj.Case{Probe: p, Fault: "hook"}
 		c.OptDebugger = rapid.Bool().Draw(t, "optdbg")
